@@ -11,6 +11,7 @@ import common                                   # noqa: E402
 from common import driver                       # noqa: E402
 import c18_gen                                  # noqa: E402
 import c18_spec as spec                         # noqa: E402
+import c18_e2e as e2e                           # noqa: E402
 
 gen = c18_gen.gen
 
@@ -253,7 +254,11 @@ def run(chk):
     chk.cov["rule"] = ("texts of 1..5 generated free-form lines (statements, declarations, !$omp/!$acc directives, comments, "
                        "trailing comments, character literals with blanks/quotes/!/&, continued lines, unbreakable tokens, "
                        "blank lines, a malformed stream) x limit 40..132 (3% below 40); non-trivial = at least one line "
-                       "longer than the limit; distinct by canonical JSON of (limit, lines)")
+                       "longer than the limit; distinct by canonical JSON of (limit, lines).  Plus the end-to-end family: "
+                       "real psyclone.generator.main / kernel_tools.run in-process with -l output|all on algorithm files "
+                       "with invokes (LFRic, GOcean with --kernel-output of script-transformed kernels), without any invoke, "
+                       "and through -api nemo, each compared with its unlimited (-l off, identity limiter) run; non-trivial = "
+                       "an emitted file has a line longer than 132")
     chk.assumptions += ["input characters are ASCII (Python's isspace/re.I treat some non-ASCII characters specially)",
                         "lines contain no newline (text is split on \\n)",
                         "`logical` (Lean, mirrored in c18_spec.py and compared on every case) is my formalisation of "
@@ -268,13 +273,17 @@ def run(chk):
     r = chk.rng
     n = 12000 if chk.tier == "thorough" else 2500
     cases = list(CORPUS)
+    e2e_corpus = []
     cdir = os.path.join(common.ROOT, "corpus", "C18")
     if os.path.isdir(cdir):
         import json
         for fn in sorted(os.listdir(cdir)):
             if fn.endswith(".json"):
                 p = json.load(open(os.path.join(cdir, fn)))
-                cases.append((p["limit"], p["lines"]))
+                if p.get("kind") == "e2e":
+                    e2e_corpus.append(p["scenario"])
+                else:
+                    cases.append((p["limit"], p["lines"]))
     cases += [gen_case(r) for _ in range(n)]
     # every case at two more limits so that each text sees several windows
     req = []
@@ -341,6 +350,30 @@ def run(chk):
         out = real_process(L, "\n".join(lines))[1].split("\n")
         if spec.show_items(spec.logical(out)) != ml:
             raise common.Infra(f"c18_spec.logical differs from Lean C18.logical on output {out!r}")
+    # ---- end-to-end family: the call sites that apply the limiter (generator.main, rename_and_write, psyclone-kern)
+    e2e_stats = {"scenarios": 0, "refused": 0, "files": 0, "files_with_long_lines": 0, "names": []}
+    for sc in e2e_corpus + e2e.scenarios(r, thorough=(chk.tier == "thorough")):
+        res = e2e.run_scenario(sc)
+        fails, glue, st = e2e.evaluate(sc, res)
+        e2e_stats["scenarios"] += 1
+        e2e_stats["names"].append(f"{sc['name']}:{sc['api']}:-l {sc['mode']}")
+        if res["rc"] != 0 or res["rc_ref"] != 0:
+            e2e_stats["refused"] += 1
+            if not sc["name"].startswith("corpus-") and sc["name"] != "noinvoke-short-all":
+                raise common.Infra(f"end-to-end scenario {sc['name']} did not run (exit {res['rc']}/{res['rc_ref']}): {res['console']}")
+        e2e_stats["files"] += st["files"]
+        e2e_stats["files_with_long_lines"] += st["files_with_long_lines"]
+        chk.case({"e2e": sc["name"], "api": sc["api"], "mode": sc["mode"], "inputs": sorted(sc["files"])},
+                 nontrivial=st["files_with_long_lines"] > 0, agreed=not glue and not fails)
+        for role, what in glue:
+            if not any(fr == role for fr, _, _ in fails):
+                chk.correspondence_broken(f"end-to-end {sc['name']} {role}: {what}", {"scenario": sc["name"], "output": role},
+                                          "process 132 (unlimited text)", "emitted text")
+        for role, clause, detail in fails:
+            if reported < 6:
+                chk.violation(e2e.payload(sc, role, clause, detail))
+                reported += 1
+    chk.cov["end_to_end"] = e2e_stats
     chk.cov["distribution"] = dist
     chk.cov["limits"] = "40..132 (+ a few 10..39)"
     # known findings: replay the witnesses
@@ -352,6 +385,8 @@ def run(chk):
 
 
 def replay(payload):
+    if payload.get("kind") == "e2e":
+        return e2e.replay(payload)
     if "limit" not in payload:
         print("no failing input stored (broken proof obligation or correspondence):", payload.get("broken"))
         return 1
